@@ -311,7 +311,8 @@ func (s *SMF) WriteTo(f io.Writer) (size int64, err error) {
 		}
 	}
 
-	return wr.output.size, nil
+	// err is the failure that ended the loop, if any
+	return wr.output.size, err
 }
 
 func (s *SMF) log(format string, vals ...interface{}) {
